@@ -14,7 +14,7 @@ import (
 
 // C04: traffic is split by the configured weights.
 
-var c04Weights = []float64{0, 0.0001, 0.05, 0.1, 0.2, 0.25, 0.3333, 0.5, 0.9, 1, 2, 6, -1}
+var c04Weights = []float64{0, 0.0001, 0.05, 0.1, 0.2, 0.25, 0.3333, 0.5, 0.7, 0.9, 1, 2, 3, 6, -1}
 
 // c04Ref computes the documented effective weights from fixed weights (<=0 = dynamic).
 func c04Ref(fixed []float64) []float64 {
@@ -107,11 +107,13 @@ func c04CheckRoute(L *ev.Layer, r *Route, fixed []float64, c map[string]interfac
 	tol := float64(k+1) / float64(10000-k)
 	for _, t := range r.Targets {
 		share := float64(cnt[t]) / float64(len(ring))
-		if t.Weight > 0 && cnt[t] == 0 {
+		if t.Weight > 0 && exp[indexOf(r, t)] > 0 && cnt[t] == 0 {
 			L.Violation(c04Sig("positive-weight-without-slot", fixed), c)
 			return
 		}
-		if t.Weight == 0 && cnt[t] != 0 {
+		if (t.Weight == 0 || exp[indexOf(r, t)] == 0) && cnt[t] != 0 {
+			// by the rule this target's weight is exactly zero (fixed weights use up
+			// 100%): a rounding remainder must not put it on the ring
 			L.Violation(c04Sig("zero-weight-has-slot", fixed), c)
 			return
 		}
@@ -164,7 +166,7 @@ func c04CheckRoute(L *ev.Layer, r *Route, fixed []float64, c map[string]interfac
 		}
 		randIntn = saved
 		for _, t := range r.Targets {
-			if (t.Weight == 0 && got[t] != 0) || (t.Weight > 0 && got[t] == 0) || bad {
+			if ((t.Weight == 0 || exp[indexOf(r, t)] == 0) && got[t] != 0) || (t.Weight > 0 && exp[indexOf(r, t)] > 0 && got[t] == 0) || bad {
 				L.Violation(c04Sig("rnd-picker-reachability", fixed), c)
 				return
 			}
@@ -178,6 +180,15 @@ func c04CheckRoute(L *ev.Layer, r *Route, fixed []float64, c map[string]interfac
 
 // randIntn is a package variable: the substitution must not overlap between workers
 var c04RndMu sync.Mutex
+
+func indexOf(r *Route, t *Target) int {
+	for i, x := range r.Targets {
+		if x == t {
+			return i
+		}
+	}
+	return -1
+}
 
 func c04W(r *Route) []float64 {
 	var w []float64
@@ -211,7 +222,7 @@ func c04Sig(kind string, fixed []float64) string {
 
 func TestVerifC04Add(t *testing.T) {
 	L := ev.Begin("C04", "c04-add", "exploration",
-		"every weight vector of 1..N targets over 13 weights (dynamic, tiny, fractions, 1, >1, negative) built with `route add`; oracle: weights = documented rule (independent computation), ring share within (k+1)/10000, one full round-robin cycle through the real picker gives each target exactly its slots, random picker enumerated over every answer of the random source. non-trivial = vector has >=2 targets and at least one fixed weight")
+		"every weight vector of 1..N targets over 15 weights (dynamic, tiny, fractions, 1, >1, negative) built with `route add`; oracle: weights = documented rule (independent computation), ring share within (k+1)/10000, one full round-robin cycle through the real picker gives each target exactly its slots, random picker enumerated over every answer of the random source. non-trivial = vector has >=2 targets and at least one fixed weight")
 	N := 4
 	if ev.Thorough() {
 		N = 5
